@@ -22,7 +22,8 @@ import (
 var FxPackages = [][2]string{
 	{"fx/pk", "pk"}, {"fx/pk2", "pk2"}, {"fx/a/pkg", "pkg"}, {"fx/b/pkg", "pkg"}, {"fx/p-k.g", "pkg"},
 	{"fx/ab", "ab"}, {"fx/a", "a"}, {"fx/fmt", "fmt"}, {"fx/os", "os"}, {"fx/errors", "errors"},
-	{"fx/ab/ab", "ab"}, // an alias followed by a sub-path that spells the alias again
+	{"fx/ab/ab", "ab"},    // an alias followed by a sub-path that spells the alias again
+	{"fx/pk2/sub", "sub"}, // a sub-package of a package that alias tables name with a quoted path
 }
 
 // FxManyPackages: fourteen more copies of the fixture package, for configurations with more distinct import paths
